@@ -319,6 +319,23 @@ def handle_connect_rules(A, fl, rule):
                         'when none is configured' % fl['name'], site,
                         key='%s-cookie-unset' % fl['name'], detail=txt(hd),
                         behaviour='a session cookie is sent although none is configured')
+    # the monitor is armed by every kind of open (polling, websocket, rejected alike)
+    for p in ps:
+        v = PV(p)
+        if any(e.kind == 'exc' and e.cls is not None for e in v.ev):
+            continue
+        ga = set(v.guard_atoms())
+        started = v.calls('self.start_background_task(self._service_task)')
+        gen = v.calls('self.generate_id()')
+        ok = ('self.start_service_task', False) in ga or \
+            (('self.start_service_task', True) in ga and len(started) == 1 and
+             (not gen or started[0][0] < gen[0][0]))
+        A.check(ok, rule + '.monitor-armed', '%s: whatever the transport of the open, the first '
+                'connect starts the monitoring task (when monitoring is on) before the session '
+                'is created' % fl['name'], A.site(fi), key='%s-connect-monitor' % fl['name'],
+                detail=v.describe(40),
+                behaviour='with WebSocket-only clients the sweep never runs: vanished clients '
+                          'are detected late or never')
     if not n_bad_order:
         A.floor(rule, '%s accepted polling opens' % fl['name'], n_acc, 3)
         A.floor(rule, '%s rejected opens' % fl['name'], n_rej, 1)
@@ -419,8 +436,9 @@ SINKS = {
 }
 
 
-def request_paths(A, fl, cache={}):
-    key = (id(A), fl['name'])
+def request_paths(A, fl):
+    cache = A.__dict__.setdefault('_request_paths', {})
+    key = fl['name']
     if key in cache:
         return cache[key]
     fi = A.func(fl['server'] + '.handle_request')
@@ -431,8 +449,6 @@ def request_paths(A, fl, cache={}):
     keep = set(REQ_DEFS) | {'environ', 'r', 'translate_request'}
     en = A.enum(opaque=opaque, keep=keep, max_paths=150000)
     ps = [p for p in A.paths(en, fi, srv) if p.outcome != 'cut']
-    if len(cache) > 4:
-        cache.clear()
     cache[key] = (fi, srv, ps)
     return cache[key]
 
@@ -2080,3 +2096,27 @@ def driver_response_rules(A, rule):
                     key='driver-%s-filter' % mod, detail=extra,
                     behaviour='a compressed body is delivered without its Content-Encoding '
                               'header')
+
+
+def driver_fifo_rule(A, rule):
+    """Frames buffered by a driver are handed to the engine in arrival order."""
+    mi = A.model.modules.get('async_drivers.gevent_uwsgi')
+    if mi is None:
+        raise AnalysisError('%s: driver gevent_uwsgi vanished' % rule)
+    n = 0
+    for node in ast.walk(mi.tree):
+        if isinstance(node, ast.Call) and isinstance(node.func, ast.Attribute) and \
+                node.func.attr == 'pop' and txt(node.func.value) == 'self.received_messages':
+            n += 1
+            A.check(len(node.args) == 1 and match('0', node.args[0]) is not None,
+                    rule + '.driver-fifo', 'gevent_uwsgi driver: buffered frames are taken from '
+                    'the front of the receive buffer', 'src/engineio/async_drivers/gevent_uwsgi.py:%d'
+                    % node.lineno, key='driver-uwsgi-pop', detail=txt(node),
+                    behaviour='a burst of frames read in one wake-up reaches the message handler '
+                              'out of order')
+        if isinstance(node, ast.Call) and isinstance(node.func, ast.Attribute) and \
+                node.func.attr == 'insert' and txt(node.func.value) == 'self.received_messages':
+            A.violated(rule + '.driver-fifo', 'gevent_uwsgi driver appends received frames',
+                       'src/engineio/async_drivers/gevent_uwsgi.py:%d' % node.lineno,
+                       key='driver-uwsgi-insert', detail=txt(node))
+    A.floor(rule, 'gevent_uwsgi receive-buffer pops', n, 2)
